@@ -122,6 +122,7 @@ def C02(prog: Program, run: Run, tier: str) -> None:
     run.add(_only(rounding.rule_round(prog, {"geobox", "gcp", "geom"}), "geobox:GeoBoxBase.compute", "geobox:GeoBox.", "geobox:scaled_down", "geobox:_round", "gcp:", "geom:BoundingBox.round"), ROUND_DESC)
     run.add(_only(rounding.rule_clamps(prog), "geobox:GeoBoxBase.compute_zoom_out"), None)
     run.add(_fwd(prog, {"geobox", "gcp"}), FWD_DESC)
+    run.add(extra.gcp_view_state(prog), "R-SIBLING every GCPGeoBox member whose GeoBox sibling is computed from the affine reads the view affine too")
     run.floor("R-AXIS|", 150)
     run.floor("R-CORNERS|", 7)
 
@@ -139,6 +140,7 @@ def C03(prog: Program, run: Run, tier: str) -> None:
     run.add(extra.point_transform(prog) + extra.relative_rois(prog) + extra.reproject_info_fields(prog),
             "R-GUARDSEQ point transform goes src.pix2wld -> (clamp) -> transformer(src->dst) -> dst.wld2pix, back swaps; envelopes mapped in the right "
             "direction and clipped to the right shape; empty source => empty destination; scale = min(scale2); read_shrink from scale")
+    run.add(generic.rule_kind(prog, {"roi"}), "R-KIND functions named for a mid-point return half the sum of the two ends, functions named for a span/shape return their difference")
     run.floor("R-ROUND|", 10)
     run.floor("R-AXIS|", 30)
 
@@ -160,7 +162,8 @@ def C04(prog: Program, run: Run, tier: str) -> None:
 
 def C05(prog: Program, run: Run, tier: str) -> None:
     run.add(api.rule_api(prog, {"cog._tifffile", "cog._mpu", "cog._mpu_fs", "cog._shared", "cog._s3"} if tier == "quick" else None), "R-API the writer's imports and attribute references resolve in the installed dask/tifffile/numpy")
-    run.add(cog.rule_flow16(prog), "R-FLOW16 tile sizes originate from adjust_blocksize/norm_blocksize whose returns are align_up(.,16)")
+    run.add(cog.rule_flow16(prog), "R-FLOW16 tile sizes originate from adjust_blocksize/norm_blocksize whose returns are align_up(.,16); both axes padded with the shared level count")
+    run.add(cog.rule_rechunk(prog), "R-GUARDSEQ source rechunked to the layout's chunking unless its whole chunk shape already equals it")
     run.add(cog.rule_order(prog), "R-ORDER the bag list handed to the multi-part writer is the reversed level list (overviews first)")
     run.add([i for i in cog.rule_mpu(prog) if "STRIDE" in i.construct], "R-MPU STRIDE part-id ranges of chunks and sub-streams neither overlap nor leave gaps")
     run.add(cog.rule_swallow(prog), "R-SWALLOW (informational) encoder errors returned as empty tiles")
@@ -276,6 +279,7 @@ def C16(prog: Program, run: Run, tier: str) -> None:
     run.add(_only(axis.rule_axis(prog, {"geobox", "geom", "math"}), "geobox:GeoBox.overlap_roi", "geobox:GeoBox.enclosing", "geobox:GeoBox.snap_to", "geobox:bounding_box", "geobox:pixel_tr", "geobox:geobox_", "geom:bbox_", "geom:BoundingBox", "math:split_translation"), AXIS_DESC)
     run.add(_only(crsguard.rule_retag(prog, {"geobox", "geom"}), "geobox:geobox_", "geobox:GeoBox.enclosing", "geom:bbox_"), "R-RETAG")
     run.add(extra.enclosing_projection(prog), "R-GUARDSEQ enclosing derives its pixel box from the projected region, rounded outwards, on every path")
+    run.add(generic.rule_kind(prog, {"geom"}), "R-KIND functions named for a mid-point return half the sum of the two ends, functions named for a span/shape return their difference")
     run.floor("R-LATTICE|", 14)
     run.floor("R-GUARDSEQ|", 6)
 
@@ -289,6 +293,7 @@ def C17(prog: Program, run: Run, tier: str) -> None:
     run.add(_only(_fwd(prog, {"roi"}), "roi:roi_", "roi:scaled", "roi:slice", "roi:_norm", "roi:_fill"), FWD_DESC)
     run.add(extra.negative_index(prog, {"roi"}), "R-NEGIDX integer index -> slice(i, i+1) only after negative values were adjusted or rejected")
     run.add(extra.intersect_siblings(prog), "R-SIBLING slice_intersect3 and roi_intersect agree on start/stop roles (max/min) and on the disjoint tests")
+    run.add(generic.rule_kind(prog, {"roi"}), "R-KIND functions named for a mid-point return half the sum of the two ends, functions named for a span/shape return their difference")
     run.floor("R-ROUND|", 7)
 
 
@@ -310,7 +315,8 @@ def C20(prog: Program, run: Run, tier: str) -> None:
 # ---------------------------------------------------------------------------------------------
 GENERIC_DESC = (
     "R-DUP no boolean operator / comparison / if-elif chain / conditional expression repeats an operand (the second copy "
-    "was meant to test something else); R-TRUTHY no optional-number parameter is tested by truth value (0 is a value, not None)"
+    "was meant to test something else); R-TRUTHY no optional-number parameter is tested by truth value (0 is a value, not None); "
+    "R-ABSEPS the affine library's absolute-epsilon predicates (is_rectilinear, is_identity, ...) are never applied to a pixel->world affine"
 )
 
 
@@ -338,7 +344,7 @@ def _with_generic(pid, fn):
     def wrapped(prog: Program, run: Run, tier: str) -> None:
         fn(prog, run, tier)
         mods = {m for m in ANCHORED.get(pid, set()) if m in prog.modules}
-        run.add(generic.rule_dup(prog, mods) + generic.rule_truthy(prog, mods), GENERIC_DESC)
+        run.add(generic.rule_dup(prog, mods) + generic.rule_truthy(prog, mods) + generic.rule_abseps(prog, mods), GENERIC_DESC)
 
     wrapped.__name__ = pid
     wrapped.__doc__ = fn.__doc__
